@@ -79,6 +79,7 @@ func checkC12(w *World, tier string) *Report {
 	r.Explanation = "The eight journal instructions are resolved from the table (slots 0xe0-0xe7 of the frontier literal). " +
 		"R12.1 (effect summary of each execute function, its closures and the plain helper functions it calls): the only Stack method is pop; the only Memory methods are the read-only GetCopy/Len; StateDB is reached only through the reviewed getter list; the only other fork calls are Contract.Address and Tracer.SaveStateChange/SaveStateKey (C01 R1.4a shows the recorder has no effect outside itself); stores only into the interpreter's hasher scratch; no store through pc, no UseGas, no global write, no panic, no dynamic call; every return yields nil return data; " +
 		"R12.2 stack agreement: all pops are in the entry block (executed on every path, before any validation) and their number equals the pop count n of the slot's minStack(n,0)/maxStack(n,0); pushes are 0 in both; " +
+		"R12.5 (justified refusals, the dual of the bounds rule) every edge into an error return of the operand decoder loadDataFromMem entails that a memory read of the function would end beyond the memory, or that a 256-bit operand does not fit 64 bits — a well-formed name or key that ends exactly at the end of memory is not refused, so a well-formed journal instruction cannot halt the frame; " +
 		"R12.3 fee: the slot has no constantGas and no memorySize; its dynamicGas is built by one constructor whose closure returns one positive compile-time constant and nil on every path and reads none of its parameters; slots 0xe0-0xe7 are written nowhere but in the frontier literal and every later instruction-set constructor is a clone of the reference's (so every fork inherits the slots unchanged); " +
 		"R12.4 malformed operands halt the frame exceptionally: no journal function refers to errStopToken or ErrExecutionReverted, and the only error sources are errors.New and the recorder. Decides the structural sufficient condition for non-interference; the relational claim itself (program pairs) follows from R12.1-R12.2 and is not executed."
 	slots := w.journalSlots()
@@ -226,6 +227,9 @@ func checkC12(w *World, tier string) *Report {
 	})
 	r.need("R12.3c", 12)
 	r.Assumptions = append(r.Assumptions, "StateDB getters (GetState, …) do not change observable state", "the recorder (Tracer family) has no effect outside itself: C01 R1.4a")
+	addNeverFailsRule(w, r, "R11.8") // a well-formed key journal cannot be refused because of earlier registrations
+	addJustifiedRefusalRule(w, r, "R12.5", []string{"loadDataFromMem"}, nil)
+	r.need("R12.5", 4)
 	return r
 }
 
@@ -418,7 +422,7 @@ func checkC10(w *World, tier string) *Report {
 	r.Explanation = "R10.1 (SSA provenance in each of the eight journal instructions resolved from the table): the account argument of Tracer.SaveStateChange/SaveStateKey and of every StateDB.GetState feeding it is the result of Contract.Address() on scope.Contract — the frame's storage address — and the recorder is the interpreter's own; " +
 		"R10.2 the Tracer entry points stamp the call index obtained from CurrentCallIndex() on the same recorder in the same call; CurrentCallIndex returns callTree.current.Index when the cursor is non-nil and 0 otherwise (no cached copy); with C07 the cursor is the innermost open CALL/CREATE; " +
 		"R10.3 the call index travels unchanged saveChange -> JournalChanges -> StorageChanges.append, where it is the key of the only update of the per-call map; StorageChanges.changes and StorageKey.changes have no other writers; " +
-		"R10.4 Contract.Address/AsDelegate/NewContract and the DELEGATECALL/CALLCODE frame constructors are clones of the reference (storage address = caller's under delegation). R10.5 the per-call list is a function of that call's previous list and the new value only: StorageChanges.append touches no receiver state other than changes[callIdx] and stores append(changes[callIdx], newVal); JournalChanges always reaches it and saveChange reaches JournalChanges on every successful path; R7.1 (shared with C07) the node of a frame is opened before any early return and closed by exactly one deferred exit, so the cursor R10.2 reads is the innermost open CALL/CREATE. The value comparison inside the collapse of repeats and everything history-dependent is not decided."
+		"R10.4 Contract.Address/AsDelegate/NewContract and the DELEGATECALL/CALLCODE frame constructors are clones of the reference (storage address = caller's under delegation). R10.5 the per-call list is a function of that call's previous list and the new value only: StorageChanges.append touches no receiver state other than changes[callIdx] and stores append(changes[callIdx], newVal); JournalChanges always reaches it and saveChange reaches JournalChanges on every successful path; R10.6 the flat-index look-up findKey is a pure function of the index and all four of its coordinates (account, slot, offset, type id): no store, no memo, every level keyed by a parameter; R10.8 the call counter is only ever incremented (an index is never handed out twice while the per-call lists live); R10.7 the node that receives a journal entry is the result of findKey under this call's own account, slot, offset and type id (no remembered node); R9.8 (shared with C09) storage is read through the EVM's current StateDB field, and R16.4 (shared with C16) the recorder the journal instructions write to is the one the EVM was constructed with and is never replaced — so entries cannot land in another state's or another recorder's books after a Reset; R7.1 (shared with C07) the node of a frame is opened before any early return and closed by exactly one deferred exit, so the cursor R10.2 reads is the innermost open CALL/CREATE. The value comparison inside the collapse of repeats and everything history-dependent is not decided."
 	slots := w.journalSlots()
 	totalGets := 0
 	for _, js := range slots {
@@ -514,6 +518,11 @@ func checkC10(w *World, tier string) *Report {
 	addR103(w, r, "R10.3")
 	addR105(w, r, "R10.5")
 	addR71(w, r, "R7.1")
+	addStateSourceRule(w, r, "R9.8")
+	addFreshTracerRule(w, r, "R16.4")
+	addFindKeyPurityRule(w, r, "R10.6")
+	addSaveChangeLookupRule(w, r, "R10.7")
+	addMonotoneIndexRule(w, r, "R10.8")
 	s := w.e1()
 	want := map[string]bool{"(*Contract).Address": true, "(*Contract).AsDelegate": true, "NewContract": true, "(*EVM).DelegateCall": true, "(*EVM).CallCode": true,
 		"opDelegateCall": true, "opCallCode": true, "(*Contract).Caller": true, "(*Contract).SetCallCode": true, "(*Contract).SetCodeOptionalHash": true}
@@ -864,6 +873,102 @@ func addR105(w *World, r *Report, rule string) {
 	} else {
 		r.holds(rule, key, w.pos(fn.Pos()), "reads only changes[callIdx] and the new value; stores append(changes[callIdx], newVal) under callIdx")
 	}
+	// the only reason not to record a value: this call's list is non-empty and its last element equals the
+	// new value. Every condition that controls a return without an update must be of one of these forms:
+	// presence of the list (comma-ok), a length test of the list of values ([][]byte), or
+	// bytes.Equal(<element of that list>, newVal).
+	{
+		hasUpdate := map[*ssa.BasicBlock]bool{}
+		for _, u := range upd {
+			hasUpdate[u.Block()] = true
+		}
+		isListOfValues := func(v ssa.Value) bool {
+			sl, ok := v.Type().Underlying().(*types.Slice)
+			if !ok {
+				return false
+			}
+			_, inner := sl.Elem().Underlying().(*types.Slice)
+			return inner
+		}
+		var condBad []string
+		okCond := func(c ssa.Value) bool {
+			for {
+				if u, ok := c.(*ssa.UnOp); ok && u.Op == token.NOT {
+					c = u.X
+					continue
+				}
+				break
+			}
+			switch x := c.(type) {
+			case *ssa.Extract:
+				_, isLk := x.Tuple.(*ssa.Lookup)
+				return isLk && x.Index == 1
+			case *ssa.BinOp:
+				for _, side := range []ssa.Value{x.X, x.Y} {
+					if call, ok := side.(*ssa.Call); ok {
+						if bi, ok := call.Call.Value.(*ssa.Builtin); ok && bi.Name() == "len" && isListOfValues(call.Call.Args[0]) {
+							return true
+						}
+					}
+				}
+				return false
+			case *ssa.Call:
+				cal := x.Call.StaticCallee()
+				if cal == nil || normPath(cal.String()) != "bytes.Equal" || len(x.Call.Args) != 2 {
+					return false
+				}
+				a, b := x.Call.Args[0], x.Call.Args[1]
+				if b != ssa.Value(valP) {
+					a, b = b, a
+				}
+				if b != ssa.Value(valP) {
+					return false
+				}
+				if ld, ok := a.(*ssa.UnOp); ok && ld.Op == token.MUL {
+					if ia, ok := ld.X.(*ssa.IndexAddr); ok && isListOfValues(ia.X) {
+						return true
+					}
+				}
+				return false
+			}
+			return false
+		}
+		for _, b := range fn.Blocks {
+			if _, isRet := b.Instrs[len(b.Instrs)-1].(*ssa.Return); !isRet {
+				continue
+			}
+			// a skip return: not dominated by (and not containing) an update
+			skip := !hasUpdate[b]
+			for ub := range hasUpdate {
+				if ub.Dominates(b) {
+					skip = false
+				}
+			}
+			if !skip {
+				continue
+			}
+			for d := b; d != nil; d = d.Idom() {
+				p := d.Idom()
+				if p == nil {
+					break
+				}
+				if iff, ok := p.Instrs[len(p.Instrs)-1].(*ssa.If); ok && len(p.Succs) == 2 && p.Succs[0] != p.Succs[1] {
+					// only conditions that actually separate this block from the other branch
+					if (p.Succs[0] == d || p.Succs[0].Dominates(d)) != (p.Succs[1] == d || p.Succs[1].Dominates(d)) {
+						if !okCond(iff.Cond) {
+							condBad = append(condBad, "the return without recording at "+w.pos(b.Instrs[len(b.Instrs)-1].Pos())+" is controlled by `"+iff.Cond.String()+"`, which is neither the presence/length of this call's list of values nor bytes.Equal(its last element, the new value)")
+						}
+					}
+				}
+			}
+		}
+		k2 := key + "/skip-condition"
+		if len(condBad) > 0 {
+			r.violated(rule, k2, w.pos(fn.Pos()), strings.Join(dedup(condBad), "; ")+" — e.g. testing the length of a value confuses an empty value (a zero balance) with an absent one")
+		} else {
+			r.holds(rule, k2, w.pos(fn.Pos()), "a value is dropped only under presence/length tests of this call's list and bytes.Equal(last element, new value)")
+		}
+	}
 	// the journal call is made on every (successful) path of the functions above it
 	type hop struct {
 		rel, callee string
@@ -891,4 +996,180 @@ func addR105(w *World, r *Report, rule string) {
 		}
 	}
 	r.need(rule, 3)
+}
+
+
+// addFindKeyPurityRule: the flat-index look-up is a pure function of the index and its arguments: it
+// stores nothing, touches no receiver state other than the index, and every level of the look-up is
+// keyed by one of its own parameters (account first) — a memo of "the last key found" that leaves out
+// one of the coordinates would hand one account's (or slot's) record to another.
+func addFindKeyPurityRule(w *World, r *Report, rule string) {
+	fn := w.Func(forkPath(pkVM), "(*StateChanges).findKey")
+	key := "vm.(*StateChanges).findKey"
+	if fn == nil || len(fn.Params) < 2 {
+		r.undecided(rule, key, "-", "function not found")
+		return
+	}
+	recv := fn.Params[0]
+	var bad []string
+	nLookups := 0
+	keyed := map[*ssa.Parameter]bool{}
+	for _, b := range fn.Blocks {
+		for _, ins := range b.Instrs {
+			switch x := ins.(type) {
+			case *ssa.Store, *ssa.MapUpdate:
+				bad = append(bad, "modifies state at "+w.pos(ins.Pos()))
+			case *ssa.FieldAddr:
+				if x.X == ssa.Value(recv) && fieldID(x) != "P0.StateChanges.index" {
+					bad = append(bad, "touches "+fieldID(x)+" at "+w.pos(x.Pos()))
+				}
+			case *ssa.Lookup:
+				nLookups++
+				idx := x.Index
+				if u, ok := idx.(*ssa.UnOp); ok && u.Op == token.MUL {
+					idx = u.X
+				}
+				if p, ok := idx.(*ssa.Parameter); ok {
+					keyed[p] = true
+				} else {
+					bad = append(bad, "a level of the index is looked up under a key that is not one of the function's parameters at "+w.pos(x.Pos()))
+				}
+			case ssa.CallInstruction:
+				if _, isBuiltin := x.Common().Value.(*ssa.Builtin); !isBuiltin {
+					bad = append(bad, "calls "+x.Common().String()+" at "+w.pos(ins.Pos()))
+				}
+			}
+		}
+	}
+	for _, p := range fn.Params[1:] {
+		if !keyed[p] {
+			bad = append(bad, "parameter "+p.Name()+" ("+p.Type().String()+") keys no level of the look-up")
+		}
+	}
+	// every returned node comes out of the look-up chain (or is nil)
+	for _, b := range fn.Blocks {
+		if ret, ok := b.Instrs[len(b.Instrs)-1].(*ssa.Return); ok && len(ret.Results) == 1 {
+			switch v := ret.Results[0].(type) {
+			case *ssa.Const:
+			case *ssa.Lookup:
+			case *ssa.Extract:
+				if _, ok := v.Tuple.(*ssa.Lookup); !ok {
+					bad = append(bad, "returns a value that is not the result of the index look-up at "+w.pos(ret.Pos()))
+				}
+			default:
+				bad = append(bad, "returns a value that is not the result of the index look-up at "+w.pos(ret.Pos()))
+			}
+		}
+	}
+	if len(bad) > 0 {
+		r.violated(rule, key, w.pos(fn.Pos()), strings.Join(dedup(bad), "; "))
+	} else {
+		r.holds(rule, key, w.pos(fn.Pos()), fmt.Sprintf("%d look-ups, each keyed by a parameter; all %d coordinates used; no store, no other state", nLookups, len(fn.Params)-1))
+	}
+	r.need(rule, 1)
+}
+
+
+// addSaveChangeLookupRule: in saveChange the node that receives the journal entry is the result of
+// findKey called with the function's own account, slot and type id (and the offset read from its own
+// offset operand) — not a node remembered from an earlier journal.
+func addSaveChangeLookupRule(w *World, r *Report, rule string) {
+	fn := w.Func(forkPath(pkVM), "(*StateChanges).saveChange")
+	key := "vm.(*StateChanges).saveChange/record"
+	if fn == nil || len(fn.Params) != 7 {
+		r.undecided(rule, key, "-", "saveChange(account, self, offset, typeId, callIdx, newVal) not found with that shape")
+		return
+	}
+	// positions: 0 recv, 1 account, 2 self, 3 offset, 4 typeId, 5 callIdx, 6 newVal
+	n := 0
+	var bad []string
+	for _, b := range fn.Blocks {
+		for _, ins := range b.Instrs {
+			c, ok := ins.(*ssa.Call)
+			if !ok {
+				continue
+			}
+			cal := c.Call.StaticCallee()
+			if cal == nil || cal.Name() != "JournalChanges" || len(c.Call.Args) < 1 {
+				continue
+			}
+			n++
+			fk, ok := c.Call.Args[0].(*ssa.Call)
+			if !ok || fk.Call.StaticCallee() == nil || fk.Call.StaticCallee().Name() != "findKey" || len(fk.Call.Args) != 5 {
+				bad = append(bad, "the node journaled at "+w.pos(c.Pos())+" is not (on every path) the result of a findKey look-up made by this call: "+rootDesc(c.Call.Args[0]))
+				continue
+			}
+			if fk.Call.Args[1] != ssa.Value(fn.Params[1]) || fk.Call.Args[2] != ssa.Value(fn.Params[2]) || fk.Call.Args[4] != ssa.Value(fn.Params[4]) {
+				bad = append(bad, "the look-up at "+w.pos(fk.Pos())+" is not made under this call's own account, slot and type id")
+			}
+			roots := map[*ssa.Parameter]bool{}
+			paramRoots(fk.Call.Args[3], roots, map[ssa.Value]bool{}, 10)
+			for p := range roots {
+				if p != fn.Params[3] {
+					bad = append(bad, "the offset of the look-up is computed from "+p.Name())
+				}
+			}
+		}
+	}
+	if n != 1 {
+		bad = append(bad, fmt.Sprintf("expected exactly one JournalChanges call, found %d", n))
+	}
+	if len(bad) > 0 {
+		r.violated(rule, key, w.pos(fn.Pos()), strings.Join(bad, "; "))
+	} else {
+		r.holds(rule, key, w.pos(fn.Pos()), "JournalChanges(findKey(account, self, offset-of-this-call, typeId))")
+	}
+	r.need(rule, 1)
+}
+
+
+// addMonotoneIndexRule: journal lists are keyed by the call index for the whole life of the recorder, so
+// an index is never handed out twice: every store to CallTree.count outside the constructor is
+// load(count)+1 — the counter is never set back (not even together with a fresh lookup table, which
+// would keep the call tree itself consistent but make a later top-level call share index 0.. with an
+// earlier one in every per-call list).
+func addMonotoneIndexRule(w *World, r *Report, rule string) {
+	n := 0
+	var bad []string
+	for _, top := range w.Funcs(forkPath(pkVM)) {
+		for _, fn := range withAnon(top) {
+			for _, b := range fn.Blocks {
+				for _, ins := range b.Instrs {
+					st, ok := ins.(*ssa.Store)
+					if !ok {
+						continue
+					}
+					fa, ok := st.Addr.(*ssa.FieldAddr)
+					if !ok || fieldID(fa) != "P0.CallTree.count" {
+						continue
+					}
+					if _, isAlloc := fa.X.(*ssa.Alloc); isAlloc {
+						continue
+					}
+					n++
+					okInc := false
+					if bo, isBo := st.Val.(*ssa.BinOp); isBo && bo.Op == token.ADD {
+						if _, _, isLoad := loadOfField(bo.X, "count"); isLoad {
+							if k, isK := bo.Y.(*ssa.Const); isK && k.Value != nil && k.Value.ExactString() == "1" {
+								okInc = true
+							}
+						}
+					}
+					if !okInc {
+						bad = append(bad, relName(fn)+" stores "+st.Val.String()+" into the call counter at "+w.pos(st.Pos()))
+					}
+				}
+			}
+		}
+	}
+	key := "vm.CallTree.count/monotone"
+	switch {
+	case len(bad) > 0:
+		r.violated(rule, key, "-", strings.Join(bad, "; ")+": call indices would be handed out again and entries of different calls would share a per-call list")
+	case n == 0:
+		r.undecided(rule, key, "-", "no store to the call counter found: the rule's anchor does not resolve")
+	default:
+		r.holds(rule, key, "-", fmt.Sprintf("%d store(s) to the call counter, each load(count)+1", n))
+	}
+	r.need(rule, 1)
 }
